@@ -147,10 +147,10 @@ class Opaque:
 
 
 class FnVal:
-    __slots__ = ('name', 'key', 'info')
+    __slots__ = ('name', 'key', 'info', 'crate')
 
-    def __init__(self, name, key, info):
-        self.name = name; self.key = key; self.info = info
+    def __init__(self, name, key, info, crate=None):
+        self.name = name; self.key = key; self.info = info; self.crate = crate
 
     def __repr__(self):
         return f'fn {self.name}'
@@ -293,6 +293,8 @@ def in_range(e, bits, signed):
 
 
 def num_cmp(op, a, b):
+    if is_sym(a.e) and is_sym(b.e) and a.e.eq(b.e):
+        return op in ('Eq', 'Le', 'Ge')
     x, y, mode = _coerce(a, b)
     if mode is None:
         return {'Eq': x == y, 'Ne': x != y, 'Lt': x < y, 'Le': x <= y, 'Gt': x > y, 'Ge': x >= y}[op]
@@ -622,6 +624,15 @@ class Exec:
                     return r
         if has_body:
             return self.call_key(fv.key, args, name)
+        ctor = fv.info.get('ctor') if isinstance(fv.info, dict) else None
+        if ctor:
+            return Agg('adt', self.ty(fv.crate, ctor['adt_ty']), ctor['variant'], args)
+        if re.fullmatch(r'<.* as std::ops::(Fn|FnMut|FnOnce)<.*>>::call(_once|_mut)?', name) and len(args) == 2:
+            callee = args[0]
+            while isinstance(callee, Ref): callee = callee.get()
+            inner = list(args[1].fields) if isinstance(args[1], Agg) and args[1].kind == 'tuple' else [args[1]]
+            if isinstance(callee, FnVal): return self.call(callee, inner)
+            if isinstance(callee, Agg) and callee.kind == 'closure': return self.call_closure(args[0], inner)
         raise Unmodelled(f'call {name}')
 
     def call_by_name(self, pattern, args):
@@ -735,7 +746,7 @@ class Frame:
             kk = info.get('k')
             if kk == 'fndef':
                 res = info.get('resolved') or {}
-                return FnVal(res.get('name') or info['name'], res.get('key'), info)
+                return FnVal(res.get('name') or info['name'], res.get('key'), info, self.crate)
             if kk == 'closure':
                 a = Agg('closure', t, 0, [])
                 a.body_key = (info.get('resolved') or {}).get('key')
